@@ -155,32 +155,85 @@ func VerifC06KeyListenerInit(s *Session, k data.PrivateKey, n *com.Packet) error
 // VerifC06Conn is the server-side per-connection state of a channel.
 type VerifC06Conn struct{ c *conn }
 
-// VerifC06ChanOpen is what talk() does before a channel starts: the real resolve(), i.e.
-// conn{host: s, keys: COPY of s.keys}.
-func VerifC06ChanOpen(l *Listener, s *Session) (*VerifC06Conn, error) {
+// VerifC06ChanOpen opens a channel on both ends without running the loops: the real resolve()
+// (what talk() does: conn{host: s, keys: COPY of s.keys}), then the key line and the state line of
+// (*conn).start - `c.keys = c.host.keyValue(); c.host.stateSet(stateChannel)` - copied by hand
+// (start() itself cannot be called: it runs the two loops), and stateChannel on the client Session,
+// which is what session() has set when it enters channelRead/channelWrite.
+func VerifC06ChanOpen(l *Listener, s, client *Session) (*VerifC06Conn, error) {
 	c, err := l.resolve(s, "verif", nil)
-	return &VerifC06Conn{c: c}, err
+	if err != nil {
+		return nil, err
+	}
+	c.keys = c.host.keyValue()
+	c.host.stateSet(stateChannel)
+	client.state.Set(stateChannel)
+	return &VerifC06Conn{c: c}, nil
+}
+
+// VerifC06ChanClose leaves the channel on both ends.
+func VerifC06ChanClose(v *VerifC06Conn, client *Session) {
+	v.c.host.stateUnset(stateChannel)
+	client.state.Unset(stateChannel)
 }
 
 // VerifC06ChanConnShare is the share inside the connection-local key copy.
 func (v *VerifC06Conn) VerifC06ChanConnShare() data.SharedKeys { return v.c.keys.Shared() }
 
 // VerifC06ChanClientWrite: body of (*Session).channelWrite for one Packet:
-// next(false); KeyCrypt(s.keys); writePacket; keyCheckRevert on failure, else keyCheckSync.
-func VerifC06ChanClientWrite(s *Session, x net.Conn) error {
+// next(false) - i.e. the REAL pick() with stateChannel set: when nothing is queued it starts
+// pickWait and blocks on the queue -; KeyCrypt(s.keys); writePacket; keyCheckRevert on failure,
+// else keyCheckSync.  Returns the flags of the Packet that was sent.
+func VerifC06ChanClientWrite(s *Session, x net.Conn) (com.Flag, error) {
 	n := s.next(false)
 	if n == nil {
-		return xerr.Sub("no packet", 0)
+		return 0, xerr.Sub("no packet", 0)
 	}
+	f := n.Flags
 	n.KeyCrypt(s.keys)
 	if err := writePacket(x, s.w, s.t, n); err != nil {
 		n.Clear()
 		s.keyCheckRevert()
-		return err
+		return f, err
 	}
 	s.keyCheckSync()
 	n.Clear()
-	return nil
+	return f, nil
+}
+
+// VerifC06PickObs calls the REAL pick(i) repeatedly in one fixed situation and classifies what
+// comes out: 0 the queued Packet, 1 nil, 2 a Packet carrying key material shows up within max
+// calls (the re-key is cancelled again with keyCheckRevert), 3 only empty Packets.
+// A server Session in a channel with an empty queue blocks in pick(): it is woken first.
+func VerifC06PickObs(s *Session, queued, channel, i bool, max int) int {
+	if channel {
+		s.state.Set(stateChannel)
+		defer s.state.Unset(stateChannel)
+	}
+	var m *com.Packet
+	if queued {
+		m = &com.Packet{ID: 0xC7, Device: s.ID}
+		s.send <- m
+	}
+	for k := 0; k < max; k++ {
+		if !queued && !s.IsClient() && channel {
+			select {
+			case s.wake <- struct{}{}:
+			default:
+			}
+		}
+		n := s.pick(i)
+		switch {
+		case n == nil:
+			return 1
+		case n == m:
+			return 0
+		case n.Flags&com.FlagCrypt != 0:
+			s.keyCheckRevert()
+			return 2
+		}
+	}
+	return 3
 }
 
 // VerifC06ChanServerRead: body of (*conn).channelRead for one Packet:
@@ -224,22 +277,4 @@ func VerifC06ChanClientRead(s *Session, x net.Conn) error {
 	}
 	n.KeyCrypt(s.keys)
 	return receive(s, s.parent, n)
-}
-
-// VerifC06PickWaitRekey runs the REAL pickWait (the idle tick of a client in channel mode; the
-// bare Session has sleep 0, so wait() returns at once) until the Packet it puts on the send
-// queue carries key material, and returns that Packet (taken off the queue again); keep-alives
-// are discarded.  nil when max ticks produced no re-key (pickWait does not re-key).
-func VerifC06PickWaitRekey(s *Session, max int) *com.Packet {
-	for i := 0; i < max; i++ {
-		var o uint32
-		s.pickWait(&o)
-		if len(s.send) == 0 {
-			return nil
-		}
-		if n := <-s.send; n != nil && n.Flags&com.FlagCrypt != 0 {
-			return n
-		}
-	}
-	return nil
 }
